@@ -1991,9 +1991,15 @@ coap_session_set_type_client(coap_session_t *session) {
 
 coap_session_state_t
 coap_session_get_state(const coap_session_t *session) {
-  if (session)
-    return session->state;
-  return 0;
+  coap_session_state_t state = COAP_SESSION_STATE_NONE;
+
+  if (session) {
+    /* The state is updated by whichever thread is doing the I/O */
+    coap_lock_lock(session->context, return state);
+    state = session->state;
+    coap_lock_unlock(session->context);
+  }
+  return state;
 }
 
 int
